@@ -164,8 +164,8 @@ def evaluate__parenthesized_expression(self: XPathToken, context: ta.ContextType
 @method(infix('||', bp=32))
 def evaluate__union_operator(self: XPathToken, context: ta.ContextType = None) -> str:
 
-    return self.string_value(self.get_argument(context)) + \
-        self.string_value(self.get_argument(context, index=1))
+    return self.atomic_string_value(self.get_argument(context)) + \
+        self.atomic_string_value(self.get_argument(context, index=1))
 
 
 @method(infix('!', bp=72))
